@@ -4,14 +4,15 @@
     spec full    <49 ints> <id>      ->  ok <hex> <kind> <fields>      | bad-wf | bad-op
     spec compact <22 ints> <id>
     spec event   <12 ints> <id>
-    spec fru     <12 ints> <id>      (… logical/physical, channel [7:4], reserved [3:0] of byte 9, device type …)
+    spec fru     <14 ints> <id>      (… logical/physical flag, access LUN, private bus id of byte 8, channel [7:4],
+                                      reserved [3:0] of byte 9, device type …)
     spec mc      <9 ints>  <id>
     spec conf    <11 ints> <guid: n,n,…>   (… device id, channel [7:4], device revision [3:0] of byte 8, …)
     spec opaque  <id> <version> <type> <hex body>
          the specification's encoder and view (Spec.Sdr); ints in structure order.
-    parse <acc><rate><mod><idtype><bcd><six><bcdFruTable><chanRaw> <hex>
+    parse <acc><rate><mod><idtype><bcd><six><bcdFruTable><chanRaw><lpRaw><keyNoChannel> <hex>
                                      ->  ok <kind> <fields> | <extra fields>   | <error tag>
-         the model (SdrParse.parseSdr) with the eight variant flags (1 = as shipped).
+         the model (SdrParse.parseSdr) with the ten variant flags (1 = as shipped).
 
   <id> ::= u:<n,…> | b:<n,…> (digits, two per byte) | s:<n,…> (6-bit codes) | a:<n,…>   (`-` = empty)
   <fields> ::= name=value …   value ::= nat | int | [n,…]
@@ -112,10 +113,11 @@ def specEvent (a : List Int) (ids : IdString) : Option String :=
 
 def specFru (a : List Int) (ids : IdString) : Option String :=
   match a with
-  | [rid, ver, aa, fid, lp, ch, chlow, dt, dtm, eid, einst, oem] => do
+  | [rid, ver, aa, fid, l, lun, bus, ch, chlow, dt, dtm, eid, einst, oem] => do
     let r : FruLocator := {
       recordId := ← nat? rid, version := ← nat? ver, accessAddress := ← nat? aa,
-      fruDeviceId := ← nat? fid, logicalPhysical := ← nat? lp, channelNumber := ← nat? ch,
+      fruDeviceId := ← nat? fid, logical := ← nat? l, accessLun := ← nat? lun, privateBusId := ← nat? bus,
+      channelNumber := ← nat? ch,
       channelLow := ← nat? chlow, deviceType := ← nat? dt, deviceTypeModifier := ← nat? dtm, entityId := ← nat? eid,
       entityInstance := ← nat? einst, oem := ← nat? oem, idString := ids }
     pure (answer r.wf r.encode .fruLocator r.view)
@@ -147,7 +149,8 @@ def flag (c : Char) : Bool := c == '1'
 
 def parseVariant (s : String) : Option SdrParse.Variant :=
   match s.toList with
-  | [a, b, c, d, e, f, g, h] => some ⟨flag a, flag b, flag c, flag d, flag e, flag f, flag g, flag h⟩
+  | [a, b, c, d, e, f, g, h, i, j] =>
+    some ⟨flag a, flag b, flag c, flag d, flag e, flag f, flag g, flag h, flag i, flag j⟩
   | _ => none
 
 def handleC16 (line : String) : String :=
